@@ -11,11 +11,15 @@ CLAIM = {
           "suffix that is not itself valid sequences fails). The MODEL of Decoder.CheckIntegrity (header, discardMessages in 765-byte reads with the running CRC, trailing "
           "CRC, loop over chained sequences, any read-buffer size) returns for every byte string exactly the count and verdict of the rules with the two known deviations "
           "(C04_model_is_rules), and those deviate from the reference only for 12-byte headers and 14-byte headers with a zero CRC field "
-          "(C04_deviations_only_in_known_classes); the encoder model's own 14-byte-header output is accepted (C04_encoder_output_accepted). Per run: the Go CheckIntegrity's "
+          "(C04_deviations_only_in_known_classes); the encoder model's own 14-byte-header output is accepted (C04_encoder_output_accepted). Decode itself: with checksum "
+          "verification on, every byte the model of the full decoder obtains through readN is hashed whatever it is taken for, so whenever Decode accepts a stream that is exactly one "
+          "sequence long by its own header everything after the header is a CRC codeword (C04_decode_accepts_only_codewords), hence Decode rejects a single-sequence file whose "
+          "record region or stored CRC was hit by a burst of at most 16 bits, for every option set with checksums on and every read-buffer size (C04_decode_rejects_burst). "
+          "Per run: the Go CheckIntegrity's "
           "verdict and count equal the reference on arbitrary/mutated/chained byte strings "
           "(C04_reference, refuted for 12-byte headers and for 14-byte headers with a zero CRC field: known findings), and Decode as well as CheckIntegrity reject every "
           "single-bit flip, sampled bursts, every truncation and non-sequence suffixes of small encoder outputs.",
-  "note": NOTE_COMMON + " The CRC table/compute are the translated ones of C18. That Decode (not only CheckIntegrity) fails is validated by the Go oracle, not proved."}
+  "note": NOTE_COMMON + " The CRC table/compute are the translated ones of C18. That Decode rejects a corrupted sequence that is followed by further sequences (where the records may be framed differently) is validated by the Go oracle, not proved."}
 
 KNOWN = {1: ("legacy_header_file_crc", "12-byte header: CheckIntegrity accepts a file CRC over the records only / rejects the CRC over the whole sequence"),
          2: ("zero_header_crc_file_crc", "14-byte header with zero CRC field: CheckIntegrity restarts the file CRC after the header, the rules hash from the first byte")}
